@@ -166,7 +166,9 @@ def check_init(chk, db):
                 if fd["n"] not in fields:
                     continue
                 ty = fd["ty"]
-                if "[" in ty or db.resolve_type(ty, owner_q) is not None or db._records_named_in(ty, rec):
+                nested = [r["n"] for r in db.records if r.get("parent") == owner_q]
+                al_txt = " ".join(a["ty"] for a in rec.get("aliases", []) if a["n"] == db.strip_type(ty).split("::")[-1])
+                if "[" in ty or db.resolve_type(ty, owner_q) is not None or any(n in al_txt for n in nested):
                     continue   # raw storage arrays and class-type members (initialised by their own constructors)
                 construct = "%s::%s" % (owner_q, fd["n"])
                 chk.instance("INIT")
